@@ -263,3 +263,5 @@ Proof.
     + intros w Hw. destruct (H w (or_intror Hw)) as [Hlt Hb]. split; [exact Hlt|].
       rewrite bits_set_bit, Hb. destruct (N.eqb_spec w v); [subst; contradiction|reflexivity].
 Qed.
+
+Global Opaque bm_bits_values.
